@@ -972,6 +972,15 @@ pub fn exec_crossing(c: &XCase) -> Outcome {
             }
         }
     }
+    // A server that answers the crossing Close only after the client's CloseOk (timing 2) still
+    // owes that answer; the client has already freed the id (it did so when it answered the
+    // server's Close), and an id re-opened before the late CloseOk arrives would receive it.
+    // What the client should do about that is outside C09: the id is re-opened once the server
+    // has paid.
+    let t0 = Instant::now();
+    while sess.broker.call(|b, _| b.owe_close_ok).unwrap_or(false) && t0.elapsed() < Duration::from_secs(5) {
+        std::thread::sleep(Duration::from_millis(1));
+    }
     // the id is free again and the connection is fine
     let reopen = crate::session::timed(crate::session::CALL_TIMEOUT, "avh-c09-reopen", move || {
         let r = conn.open_channel(Some((target + 1) as u16)).and_then(|ch| {
